@@ -747,6 +747,82 @@ pub fn check_find_link_queries<K: Kmer, D: Debug>(
     Ok(())
 }
 
+/// all k-mers of length k
+pub fn all_kmers_of_len(k: usize) -> Vec<S> {
+    let n = 1usize << (2 * k);
+    (0..n)
+        .map(|v| (0..k).map(|i| ((v >> (2 * (k - 1 - i))) & 3) as u8).collect())
+        .collect()
+}
+
+/// Hand-built graph (arbitrary node sequences with pairwise distinct first k-mers and pairwise
+/// distinct last k-mers, arbitrary extension bits): find_link for EVERY k-mer in both directions
+/// must say "found" exactly when some node starts / ends with it (or its reverse complement on the
+/// other end when unstranded); edges() must be the resolvable extension bits.
+pub fn check_handbuilt<K: Kmer + Send + Sync>(
+    rng: &crate::util::Rng,
+    parallel: bool,
+) -> Result<(u64, u64, u64), String> {
+    let k = K::k();
+    let stranded = rng.chance(1, 2);
+    let mut b: BaseGraph<K, u32> = BaseGraph::new(stranded);
+    let mut firsts: std::collections::HashSet<S> = std::collections::HashSet::new();
+    let mut lasts: std::collections::HashSet<S> = std::collections::HashSet::new();
+    let nn = rng.range(1, 6);
+    let mut pal_terms = 0u64;
+    for i in 0..nn {
+        let len = k + *rng.pick(&[0usize, 1, 1, 2, 3, 6]);
+        let mut s = rng.bases(len, *rng.pick(&[2usize, 4, 4]));
+        if rng.chance(1, 3) && k % 2 == 0 {
+            // palindromic terminal k-mer on a node longer than K
+            let h = rng.bases(k / 2, 4);
+            let mut p = h.clone();
+            p.extend(rc(&h));
+            if rng.chance(1, 2) {
+                s[..k].copy_from_slice(&p);
+            } else {
+                s[len - k..].copy_from_slice(&p);
+            }
+        }
+        let f = s[..k].to_vec();
+        let l = s[len - k..].to_vec();
+        if firsts.contains(&f) || lasts.contains(&l) {
+            continue;
+        }
+        if is_pal(&f, false) || is_pal(&l, false) {
+            pal_terms += 1;
+        }
+        firsts.insert(f);
+        lasts.insert(l);
+        b.add(&s, Exts::new((rng.next() & 0xff) as u8), i as u32);
+    }
+    let g = if parallel { b.finish() } else { b.finish_serial() };
+    let seqs: Vec<S> = (0..g.len()).map(|i| g.get_node(i).sequence().bytes()).collect();
+    let ti = TermIndex::new(seqs, k, stranded);
+    let mut st = EStats::default();
+    let queries = all_kmers_of_len(k);
+    check_find_link_queries(&g, &ti, &queries, &mut st).map_err(|e| format!("hand-built graph (stranded={}, nodes {:?}): {}", stranded, ti.seqs.iter().map(|s| crate::util::ascii(s)).collect::<Vec<_>>(), e))?;
+    // edges() == resolvable bits
+    for i in 0..g.len() {
+        let node = g.get_node(i);
+        let s = &ti.seqs[i];
+        for side in [L, R] {
+            let term: S = if side == L { s[..k].to_vec() } else { s[s.len() - k..].to_vec() };
+            let got: Vec<(usize, u8, bool)> = node.edges(dir_of(side)).iter().map(norm_edge).collect();
+            let mut n_exp = 0;
+            for bb in 0..4u8 {
+                if node.exts().val & bit(side, bb) != 0 && !ti.links(&ext_str(&term, side, bb), side).is_empty() {
+                    n_exp += 1;
+                }
+            }
+            if got.len() != n_exp {
+                return Err(format!("hand-built graph: node {} side {} reports {} edges, {} of its extension bits resolve to node ends", i, side, got.len(), n_exp));
+            }
+        }
+    }
+    Ok((st.queries, st.absent_queries, pal_terms))
+}
+
 /// Oriented sequence of a path entry
 pub fn oriented(seq: &[u8], d: Dir) -> S {
     match d {
